@@ -186,11 +186,20 @@ func (P) exec(line string) string {
 	}
 	switch f[1] {
 	case "c2b":
-		// results are values: mutate the first answer, ask again, the answers must agree
-		a := blockchain.CompactToBig(u32hex(f[2]))
+		// results are values: obtain a result, make further calls (same and different input), mutate
+		// their results, then re-observe the FIRST result; finally mutate it and ask again
+		c := u32hex(f[2])
+		a := blockchain.CompactToBig(c)
 		s := signedHex(a)
+		b := blockchain.CompactToBig(c ^ 0x00000101)
+		b.Add(b, big.NewInt(12345))
+		b2 := blockchain.CompactToBig(c)
+		b2.Neg(b2).Add(b2, big.NewInt(7))
+		if signedHex(a) != s {
+			return "aliased"
+		}
 		a.Add(a, big.NewInt(12345))
-		if signedHex(blockchain.CompactToBig(u32hex(f[2]))) != s {
+		if signedHex(blockchain.CompactToBig(c)) != s {
 			return "aliased"
 		}
 		return s
@@ -206,11 +215,18 @@ func (P) exec(line string) string {
 		}
 		return fmt.Sprintf("%08x", c)
 	case "work":
-		a := blockchain.CalcWork(u32hex(f[2]))
+		c := u32hex(f[2])
+		a := blockchain.CalcWork(c)
 		s := a.Text(16)
+		b := blockchain.CalcWork(c ^ 0x00010000)
+		b.Lsh(b, 1).Add(b, big.NewInt(1))
+		b2 := blockchain.CalcWork(c)
+		b2.Add(b2, big.NewInt(3))
+		if a.Text(16) != s {
+			return "aliased"
+		}
 		a.Lsh(a, 1).Add(a, big.NewInt(1))
-		blockchain.CalcWork(u32hex(f[2]) ^ 0x00010000)
-		if blockchain.CalcWork(u32hex(f[2])).Text(16) != s {
+		if blockchain.CalcWork(c).Text(16) != s {
 			return "aliased"
 		}
 		return s
